@@ -24,7 +24,30 @@ def shards(tier, seed):
     return [{'i': i} for i in range(NSH)]
 
 
+def big_history(rnd, hist_id):
+    """a schema of more than 64 constituents, erasures without any insertion afterwards, then edits near the head whose
+    dependants sit 64 positions further (internal indices of the dependency graph are not compacted by erasures)"""
+    ops = [{'op': 'env.processor', 'mode': 'tagging'}, {'op': 'form.seed', 'seed': hist_id}, {'op': 'form.op', 'f': 'a', 'k': 'new'},
+           {'op': 'form.op', 'f': 'a', 'k': 'emplace', 'type': 'basic'}]
+    n = rnd.choice([66, 68, 72])
+    for i in range(1, n):
+        d = '$[0]' if i < 4 or rnd.random() < 0.5 else rnd.choice(['$[%d]∪$[%d]' % (i - 64 if i > 64 else rnd.randrange(i), rnd.randrange(i)), 'ℬ($[%d])' % rnd.randrange(i)])
+        ops.append({'op': 'form.op', 'f': 'a', 'k': 'emplace', 'type': 'term', 'def': d})
+    plan = [None] * len(ops)
+    steps = [{'op': 'form.op', 'f': 'a', 'k': 'erase', 'uid': {'idx': rnd.randrange(4, n - 8)}} for _ in range(rnd.randint(2, 5))]
+    for _ in range(rnd.randint(3, 8)):
+        steps.append({'op': 'form.op', 'f': 'a', 'k': 'setexpr', 'uid': {'idx': rnd.randrange(1, 6)}, 'text': rnd.choice(['ℬ($[0])', '$[0]×$[0]', '$[0]', '((', '{$[0]}'])})
+    for op in steps:
+        ops.append(op)
+        plan.append('op')
+        ops.append({'op': 'form.snap', 'f': 'a', 'fresh': True})
+        plan.append('snap')
+    return core.case(ops, kind='history', plan=plan)
+
+
 def history(rnd, hist_id, length, skip_resolve=False):
+    if hist_id % 10 == 7:
+        return big_history(rnd, hist_id)
     ops = [{'op': 'env.processor', 'mode': 'tagging'}, {'op': 'form.seed', 'seed': hist_id}]
     ops += fg.seed_ops(rnd, 'b', n_base=2, n_derived=3)
     ops += fg.seed_ops(rnd, 'a', n_base=rnd.choice([1, 2, 2, 3]), n_derived=rnd.choice([2, 4, 6]))
